@@ -209,6 +209,15 @@ class SymCtx:
             raise
         return None
 
+    def alloc(self, cls, **attrs):
+        """an instance of a repo class without running its constructor (frame conditions are set by the harness)"""
+        o = I.IObj(cls)
+        o.attrs.update(attrs)
+        return o
+
+    def none_is(self, v):
+        return v is None
+
     def stub(self, key, fn, note=None):
         self.world.stubs[key] = fn
         self.ex.assumed[key] = note or "assumed contract"
@@ -370,8 +379,10 @@ class NativeFail(Exception):
 class NativeCtx:
     mode = "native"
 
-    def __init__(self, values, rel_tol=1e-6, abs_tol=1e-7):
+    def __init__(self, values, rel_tol=1e-6, abs_tol=1e-7, apply_stubs=False):
         self.values = values
+        self.apply_stubs = apply_stubs
+        self._patched = []
         self.rel_tol, self.abs_tol = rel_tol, abs_tol
         self.failures = []
         self.checked = []
@@ -406,6 +417,15 @@ class NativeCtx:
     def call(self, f, *a, **k): return f(*a, **k)
     def callm(self, obj, name, *a, **k): return getattr(obj, name)(*a, **k)
 
+    def alloc(self, cls, **attrs):
+        o = object.__new__(cls)
+        for k, v in attrs.items():
+            setattr(o, k, v)
+        return o
+
+    def none_is(self, v):
+        return v is None
+
     def raises(self, thunk, *classes):
         try:
             thunk()
@@ -415,8 +435,28 @@ class NativeCtx:
             raise
         return None
 
-    def stub(self, key, fn, note=None): pass
+    def stub(self, key, fn, note=None):
+        """natively the real callee runs, unless `apply_stubs` (conformance runs, and the second replay attempt
+        `under the assumed contract`): then the repo function is patched to return what the contract says"""
+        if not self.apply_stubs or ":" not in key:
+            return
+        import importlib
+        modname, qual = key.split(":")
+        owner = importlib.import_module(modname)
+        parts = qual.split(".")
+        for p in parts[:-1]:
+            owner = getattr(owner, p)
+        if (owner, parts[-1]) not in [(o, n) for o, n, _ in self._patched]:
+            self._patched.append((owner, parts[-1], getattr(owner, parts[-1])))
+        setattr(owner, parts[-1], lambda *a, **k: fn(None, list(a), k))
+
     def unstub(self, key): pass
+
+    def restore(self):
+        for owner, name, orig in reversed(self._patched):
+            setattr(owner, name, orig)
+        self._patched = []
+
     def dict(self, pairs=()): return dict(pairs)
 
     def list_of(self, x):
@@ -474,9 +514,9 @@ def _nb(f):
     return bool(f)
 
 
-def run_native(harness, values):
+def run_native(harness, values, apply_stubs=False):
     """returns (status, ctx) with status in ok / fail / skip / raised"""
-    ctx = NativeCtx(values)
+    ctx = NativeCtx(values, apply_stubs=apply_stubs)
     try:
         harness(ctx)
     except NativeSkip:
@@ -485,4 +525,6 @@ def run_native(harness, values):
         ctx.unexpected = e
         ctx.failures.append("no-unexpected-exception")
         return "raised", ctx
+    finally:
+        ctx.restore()
     return ("fail" if ctx.failures else "ok"), ctx
